@@ -919,14 +919,14 @@ def nontriv(calls):
 
 # source translator (DESIGN.md 3.2): part of the model is regenerated from the source text on every run
 # (the landscaper, and the imager geometry whose `fit` C18's imager statements are about)
-TRUSTED = [py2lean.trusted_note("landscaper"), py2lean.trusted_note("imager")]
+TRUSTED = [py2lean.trusted_note("landscaper"), py2lean.trusted_note("imager"), py2lean.trusted_note("image")]
 PROP_FILES = ["PersimVerif/Props/C18.lean"] + py2lean.prop_files("landscaper") + [
-    f for f in py2lean.prop_files("imager") if f not in py2lean.prop_files("landscaper")]
+    f for f in py2lean.prop_files("imager") if f not in py2lean.prop_files("landscaper")] + py2lean.prop_files("image")
 
 
 def pre_build(ctx):
     """source translator: regenerate Generated/Src*.lean from PERSIM_ROOT's source"""
-    py2lean.pre_build(ctx, ("landscaper", "imager"))
+    py2lean.pre_build(ctx, ("landscaper", "imager", "image"))       # image: `transform` / `fit_transform` of the imager
 
 
 def run(ctx):
@@ -1180,4 +1180,4 @@ MANIFEST = {
             "assignments without the earlier fits).",
     "technique": "Lean 4 theorems over state-machine models + differential correspondence on call sequences + metamorphic tests",
 }
-MANIFEST["note"] += " " + py2lean.manifest_note("landscaper") + " " + py2lean.manifest_note("imager")
+MANIFEST["note"] += " " + py2lean.manifest_note("landscaper") + " " + py2lean.manifest_note("imager") + " " + py2lean.manifest_note("image")
